@@ -54,3 +54,10 @@ Fixpoint tshapes_eqb (l l' : list tstore_shape) : bool :=
 
 Definition shipped_tstores : list tstore_shape :=
   [(TRatios, SA, SB, VOne); (TRatios, SB, SA, VOne); (TOffsets, SA, SB, VNeg); (TOffsets, SB, SA, VPos)].
+
+(* ---------- how the source reads the two tables ----------
+   every occurrence of `_ratios` / `_offsets` in the package, as the translator classifies it: URow is `_ratios[unit]` (a row: read, iterated
+   or assigned into), UDef the module-level definition, UOther anything else (`x in _ratios`, `len(_ratios)`, iteration over the table, passing
+   the table on).  only_rows is the hypothesis under which Proofs/TableRows.v applies to the source: rows registered by lookups are invisible *)
+Inductive tuse := URow | UDef | UOther.
+Definition only_rows (l : list tuse) : bool := forallb (fun u => match u with UOther => false | _ => true end) l.
